@@ -38,7 +38,7 @@ EXHAUSTIVE_PART = ("all settings of the stock App: default written explicitly an
 TIMEOUT = {"quick": 600, "thorough": 3600}
 ASSUMPTIONS = [
     "the declared schema of a setting (voluptuous object in a pristine getApp().getSettings() definition) is the specification of its valid class",
-    "shard 'flags' registers one extra test plugin that contributes a FlagListSetting (the stock App defines none); all other shards use the stock App",
+    "shard 'flags' registers one extra test plugin that contributes two FlagListSettings (the stock App defines none) and one setting with a never-expiring, a future and an expired old name; all other shards use the stock App",
     "logging settings (verbosity, branchVerbosity, moduleVerbosity) are only given documented level names because loading applies them to the process logger",
 ]
 FLOORS = {
@@ -1087,14 +1087,23 @@ def do_defaults(spec, rec, rng):
         check_getsetting(ctx, settings.Settings(), rng, n)
 
 
-def do_renames(ctx, rec, rng, spec):
-    """Every active oldName: an armi-written file whose key is renamed back to the old name must land on the new setting."""
+def do_renames(ctx, rec, rng, spec, only=""):
+    """Every ACTIVE oldName (expiry None or in the future, the rule SettingRenamer documents): an armi-written file whose key is
+    renamed back to the old name must land on the new setting.  Expired old names are not applied by design: unjudged."""
     import datetime
 
     from armi import settings
 
     today = datetime.date.today()
-    renames = [(n, old) for n in ctx.names for old, exp in ctx.D[n].oldNames if exp is None or exp > today]
+    renames = []
+    for n in ctx.names:
+        if not n.startswith(only):
+            continue
+        for old, exp in ctx.D[n].oldNames:
+            if exp is None or exp > today:
+                renames.append((n, old))
+            else:
+                rec.skip("expired rename: not applied by design")
     rec.note("renames", ["%s->%s" % (o, n) for n, o in renames])
     per = 3 if spec.get("tier") == "quick" else 25
     for new, old in renames:
@@ -1432,7 +1441,9 @@ def roundtrip_files(ctx, src, r, changed, i):
 def do_flags(spec, rec, rng):
     from armi import getApp, plugins, settings
     from armi.reactor.flags import Flags
-    from armi.settings.setting import FlagListSetting
+    import datetime
+
+    from armi.settings.setting import FlagListSetting, Setting
 
     class C17FlagPlugin(plugins.ArmiPlugin):
         @staticmethod
@@ -1441,6 +1452,8 @@ def do_flags(spec, rec, rng):
             return [
                 FlagListSetting("c17FlagsA", default=[], description="flag list contributed by the C17 test plugin"),
                 FlagListSetting("c17FlagsB", default=[Flags.FUEL, Flags.GRID_PLATE], description="flag list with a non-empty default"),
+                Setting("c17Renamed", default="", description="synthetic setting with a never-expiring, a future and an expired old name",
+                        oldNames=[("c17OldActive", None), ("c17OldFuture", datetime.date(2999, 1, 1)), ("c17OldExpired", datetime.date(2000, 1, 1))]),
             ]
 
     getApp().pluginManager.register(C17FlagPlugin)
@@ -1449,7 +1462,8 @@ def do_flags(spec, rec, rng):
     names = sorted(Flags.fields())  # public: {name: int value}
     members = [getattr(Flags, nm) for nm in names]
     rec.note("n_flag_members", len(members))
-    stock = [n for n in ctx.names if not n.startswith("c17Flags")]
+    stock = [n for n in ctx.names if not n.startswith("c17")]
+    do_renames(ctx, rec, rng, spec, only="c17")  # synthetic active / future / expired old names in this shard's private plugin
 
     def gen_flag(r):
         k = r.choice([1, 1, 1, 2, 3])
